@@ -262,6 +262,15 @@ pub fn run(ctx: &Ctx) -> i32 {
                     bad[target + 1] = d.apply(&lines[target + 1], &mut rng);
                     blank[target + 1] = String::new();
                 }
+                if d == Defect::UnterminatedMacro && rng.chance(0.5) {
+                    // a properly closed macro further down (in both files): the lines between the unclosed
+                    // `.macro` and that pair belong to neither
+                    for l in [".macro later", "    addi t0, t0, 1", ".endmacro"] {
+                        bad.push(l.to_string());
+                        blank.push(l.to_string());
+                    }
+                    acc.count("unclosed_macro_with_a_closed_one_further_down", 1);
+                }
                 let bad_text = join(&bad);
                 let blank_text = join(&blank);
                 acc.evaluations += 1;
@@ -316,7 +325,8 @@ pub fn run(ctx: &Ctx) -> i32 {
                         );
                     }
                     if let Some(e) = pb.1.get(&l) {
-                        if !reported {
+                        // (a line that is unsupported by itself - the `.macro` of a closed macro - carries its error in both files)
+                        if !reported && pk.1.get(&l) != Some(e) {
                             reported = true;
                             acc.violation(
                                 format!("C07|spill-over-error|{}|{pos}", d.name()),
